@@ -210,14 +210,15 @@ def run(ctx):
         f = facts.fn(SW + "::search")
         tail = H.tail_expr(f.hir)
         atoms = ["haystack.is_stdin()", "self.should_preprocess(path)", "self.should_decompress(path)"]
-        got = H.decision_atoms(tail)
+        envs = H.LetEnv(f.hir)
+        got = H.decision_atoms(tail, envs)
         if set(got) != set(atoms):
             r.bad("order|atoms", "strategy selection depends on %s" % got, fn=f)
         else:
             bad = None
             for bits in itertools.product([False, True], repeat=3):
                 v = dict(zip(atoms, bits))
-                leaf = H.decide(tail, v)
+                leaf = H.decide(tail, v, envs)
                 want = "search_reader" if v[atoms[0]] else ("search_preprocessor" if v[atoms[1]] else
                                                            ("search_decompress" if v[atoms[2]] else "search_path"))
                 if ("self.%s(" % want) not in leaf:
